@@ -205,7 +205,7 @@ func rawLoadPackage(sys fs.FS, pkg string) (*token, error) {
 			continue
 		}
 		first := tree.Tokens[0]
-		if first.Symbol != "package" {
+		if first.Symbol != "package" || len(first.Tokens) == 0 { // "*package" parses to a bare package token
 			return nil, fmt.Errorf("expected package in: %v", fname)
 		}
 		pkgs[first.Tokens[0].Text] = true
